@@ -1054,6 +1054,24 @@ fn dump_crate<'tcx>(tcx: TyCtxt<'tcx>, name: &str) -> J {
             }
         }
         v.push(("name", J::Str(tcx.opt_item_name(did).map(|n| n.to_string()).unwrap_or_else(|| "{anon}".to_string()))));
+        {
+            // symbols that take part in linking under a fixed name can replace compiler/runtime routines
+            let attrs = tcx.codegen_fn_attrs(did);
+            let mut l = Vec::new();
+            if attrs.flags.contains(rustc_middle::middle::codegen_fn_attrs::CodegenFnAttrFlags::NO_MANGLE) {
+                l.push(J::s("no_mangle"));
+            }
+            if let Some(n) = attrs.symbol_name {
+                l.push(J::Str(format!("export_name={}", n)));
+            }
+            if attrs.link_section.is_some() {
+                l.push(J::s("link_section"));
+            }
+            if attrs.linkage.is_some() {
+                l.push(J::s("linkage"));
+            }
+            v.push(("link_attrs", J::Arr(l)));
+        }
         let body = tcx.optimized_mir(did);
         v.push(("body", cx.body(did, body)));
         let promoted = tcx.promoted_mir(did);
